@@ -17,7 +17,7 @@ RULE = ('stores generated from cell composites (process + flow steps + optional 
         'processes, steps, flow), _divide (explicit or copied daughter processes, explicit daughter state), _move '
         '(with and without an update) and plain variable updates mixed in; non-trivial = >=3 batches applied, >=2 '
         'operation kinds, and a combined update or a second-generation operation; distinct = distinct case spec')
-PLAN = {'quick': {'n': 3000, 'min_cases': 600}, 'thorough': {'n': 100000, 'min_cases': 10000}}
+PLAN = {'quick': {'n': 10000, 'min_cases': 600}, 'thorough': {'n': 100000, 'min_cases': 10000}}
 REQUIRED_ORACLES = ['tree_matches_shadow', 'untouched_nodes_keep_identity', 'moved_keeps_identity',
                     'add_existing_rejected', 'combined_all_applied', 'delete_by_path']
 ANCHORS = ['vivarium.core.store:Store.apply_update', 'vivarium.core.store:Store.add', 'vivarium.core.store:Store.move',
